@@ -94,6 +94,13 @@ def rep_floor(mp):
     return 1e4 * np.finfo(float).eps * p * abs(complex(getattr(mp, "coeff", 1.0)))
 
 
+def escale(o):
+    """Error scale a pool member carries: its own norm, or the scale of the operands it was computed from when that is
+    larger (a product that nearly annihilates, a sum that cancels): rounding errors of everything derived from it are
+    relative to this scale, not to its norm."""
+    return max(float(np.linalg.norm(o.ref)), float(o.scale or 0.0))
+
+
 def post_check(ctx, obj, what):
     """The result must stay correct when a copy of it is canonicalised / compressed without truncation."""
     rng = ctx.rng
@@ -281,7 +288,7 @@ def run_case(ctx):
             # operands keep representing the same vectors (prefactor folding is a gauge change)
             for o in (a, b):
                 compare(ctx, o, f"{kind}|operand-changed")
-            scale = max(np.linalg.norm(a.ref) + np.linalg.norm(b.ref), 1e-300)
+            scale = max(np.linalg.norm(a.ref) + np.linalg.norm(b.ref), escale(a), escale(b), 1e-300)
             ok = compare(ctx, new, kind, scale=scale)
             if np.linalg.norm(ref) < 1e-9 * scale:
                 new = None     # complete cancellation: nothing to canonicalise
@@ -296,15 +303,15 @@ def run_case(ctx):
                 res = ctx.lib(target.mp.scale, val, what="scale")
             new = Obj(res, target.ref * val, target.kind, target.trace[-3:] + [f"scale({val})"])
             compare(ctx, target, "scale|operand-changed")
-            compare(ctx, new, "scale")
+            compare(ctx, new, "scale", scale=max(abs(val) * escale(target), 1e-300))
         elif kind == "conj":
             res = ctx.lib(a.mp.conj, what="conj")
             new = Obj(res, a.ref.conj(), "mps", a.trace[-3:] + ["conj"])
-            compare(ctx, new, "conj")
+            compare(ctx, new, "conj", scale=max(escale(a), 1e-300))
         elif kind == "copy":
             res = ctx.lib(a.mp.copy, what="copy")
             new = Obj(res, a.ref.copy(), "mps", a.trace[-3:] + ["copy"])
-            compare(ctx, new, "copy")
+            compare(ctx, new, "copy", scale=max(escale(a), 1e-300))
             ctx.check(np.array_equal(res.qntot, a.mp.qntot) and res.qnidx == a.mp.qnidx and res.to_right == a.mp.to_right,
                       "copy|metadata-differs")
         elif kind in ("apply", "matmul", "contract") and ops:
@@ -321,8 +328,8 @@ def run_case(ctx):
             if o.mp.is_complex != a.mp.is_complex:
                 ctx.cls("complex-with-real")
             ref = o.ref @ a.ref
-            scale = max(float(np.linalg.norm(o.ref) * np.linalg.norm(a.ref)), 1e-300)
-            if np.linalg.norm(ref) < 1e-9 * scale:
+            scale = max(float(np.linalg.norm(o.ref) * escale(a)), 1e-300)
+            if np.linalg.norm(ref) < 1e-9 * float(np.linalg.norm(o.ref) * np.linalg.norm(a.ref)):
                 ctx.cls("apply:annihilated")
                 continue
             # (canonicalise() moves the centre to the start of its sweep itself since the repair 81e9b69: contract and
@@ -361,7 +368,8 @@ def run_case(ctx):
                 continue
             fa = 1e10 * rep_floor(a.mp) / max(abs(complex(a.mp.coeff)), 1e-300)      # tensor-level rounding floors
             fb = 1e10 * rep_floor(b.mp) / max(abs(complex(b.mp.coeff)), 1e-300)
-            na, nb = max(float(np.linalg.norm(ta)), fa), max(float(np.linalg.norm(tb)), fb)
+            na = max(float(np.linalg.norm(ta)), fa, float(a.scale or 0.0) / max(abs(complex(a.mp.coeff)), 1e-300))
+            nb = max(float(np.linalg.norm(tb)), fb, float(b.scale or 0.0) / max(abs(complex(b.mp.coeff)), 1e-300))
             sc = max(na * nb, 1e-300)
             ctx.count("oracle", 4)
             ctx.close(ctx.lib(a.mp.dot, b.mp, what="dot"), np.sum(ta * tb), 1e-10, "dot|mismatch", scale=sc)
@@ -382,7 +390,7 @@ def run_case(ctx):
                 ctx.count("oracle")
                 # (scaled by the represented vectors only: how the library splits a state into tensors and prefactor must not
                 # enter the tolerance - with prefactors of 1e-9 the tensor norms would make the check vacuous)
-                nrm = max(np.linalg.norm(a.ref), np.linalg.norm(b.ref))
+                nrm = max(np.linalg.norm(a.ref), np.linalg.norm(b.ref), float(a.scale or 0.0), float(b.scale or 0.0))
                 # dis^2 is computed as l1 + l2 - 2 Re<a|b>: absolute error ~ eps * nrm^2 on the square
                 tol = 1e-7 * nrm
                 ctx.check(abs(got - want) <= tol or abs(got ** 2 - want ** 2) <= 1e-12 * nrm ** 2, "distance|mismatch",
@@ -394,13 +402,18 @@ def run_case(ctx):
                 # distance() may have folded the prefactors into the tensors: tensor-level vectors are re-read
                 ta = np.asarray(a.mp.todense())
                 tb = np.asarray(b.mp.todense())
-                sc = max(float(np.linalg.norm(ta) * np.linalg.norm(tb)), 1e-300)
+                # (bilinear contractions of the representations: their rounding floors - rep_floor, below the condition gate of
+                # 1e6 - and the error scales the operands inherited enter like in dot / mp_norm above)
+                ca, cb = max(abs(complex(a.mp.coeff)), 1e-300), max(abs(complex(b.mp.coeff)), 1e-300)
+                na2 = max(float(np.linalg.norm(ta)), 1e10 * rep_floor(a.mp) / ca, float(a.scale or 0.0) / ca)
+                nb2 = max(float(np.linalg.norm(tb)), 1e10 * rep_floor(b.mp) / cb, float(b.scale or 0.0) / cb)
+                sc = max(na2 * nb2, 1e-300)
                 if True:
                     got = ctx.lib(a.mp.expectation, o.mp, what="expectation")
                     want = np.vdot(ta, o.ref @ ta)
                     ctx.count("oracle")
                     ctx.close(*documented_real_if_negligible(got, want), 1e-10,
-                              "expectation|mismatch", scale=max(float(np.linalg.norm(ta) ** 2 * np.linalg.norm(o.ref)), 1e-300))
+                              "expectation|mismatch", scale=max(float(na2 ** 2 * np.linalg.norm(o.ref)), 1e-300))
                     got2 = ctx.lib(a.mp.expectation, o.mp, b.mp.conj(), what="expectation(bra)")
                     want2 = np.vdot(tb, o.ref @ ta)
                     ctx.count("oracle")
@@ -518,7 +531,11 @@ def run_case(ctx):
                       got=complex(cp.coeff), want=want_c)
             # (the norm is computed from the representation: its rounding floor, rescaled like the vector, enters the tolerance)
             nref = max(float(np.linalg.norm(ref)), 1e-300)
-            compare(ctx, new, "normalize|" + nk, scale=max(nref, 1e10 * rep_floor(a.mp) * nref / n0))
+            if compare(ctx, new, "normalize|" + nk, scale=max(nref, 1e10 * rep_floor(a.mp) * nref / n0, escale(a) * nref / n0)):
+                # the norm is a quadratic contraction: its relative rounding error is eps * (condition of the representation)^2,
+                # up to 1e-4 below the gate above.  The object has been judged with that allowance; what is derived from it
+                # later is judged against what it actually represents
+                new.ref = np.array(states.dense_of(new.mp), copy=True)
             compare(ctx, a, "normalize|source-of-the-copy-changed")
         elif kind == "gauge":
             f = ctx.lib(states.apply_gauge, rng, a.mp, None, a.trace, what="gauge")
